@@ -126,7 +126,15 @@ def handle (j : Json) : Except String Json := do
       let code ← (← argArr j "code").mapM instrOfJson
       let ct := codeTree code
       let stuck := !(ct.all fun o => !o.isStuck)
-      let base := [("code_tree", jsonOfTree ct), ("code_stuck", Json.bool stuck), ("code_tree_size", toJson ct.size)]
+      let base0 := [("code_tree", jsonOfTree ct), ("code_stuck", Json.bool stuck), ("code_tree_size", toJson ct.size)]
+      -- self-check of the two models on CPython's own compilation: the AST of the SOURCE text against the bytecode
+      let base ← match j.getObjVal? "src_ast" with
+        | .ok sj =>
+          if sj.isNull then pure base0 else do
+            let a ← topOfJson sj
+            let r := check code a
+            pure (base0 ++ [("check_source", Json.bool r)] ++ (if r then [] else [("src_tree", jsonOfTree (astTree a))]))
+        | .error _ => pure base0
       match j.getObjVal? "ast" with
       | .ok aj =>
         if aj.isNull then pure (Json.mkObj base) else
